@@ -1907,6 +1907,13 @@ impl HashColumn {
 
 #[cfg(pdb_verif)]
 impl Column {
+	pub(crate) fn verif_table_stats(&self) -> Vec<(u8, u64, u64, u64, u16)> {
+		match self {
+			Column::Hash(c) => c.tables.read().value.iter().filter_map(|t| t.verif_stats()).collect(),
+			Column::Tree(c) => c.verif_table_stats(),
+		}
+	}
+
 	pub(crate) fn verif_digest(&self, h: &mut crate::verif::Hasher, d: &mut crate::verif::Digest) {
 		match self {
 			Column::Hash(c) => {
